@@ -280,3 +280,29 @@ func LintDetailed(ctx context.Context, cmd config.ContextCommandVal, cfg config.
 	}
 	return out, nil
 }
+
+// RawReports returns the stream of reports exactly as scanWorker would send them to the results
+// channel (one per problem, in job order), before Summary.Report() merges anything.
+func RawReports(ctx context.Context, cmd config.ContextCommandVal, cfg config.Config, gen *config.PrometheusGenerator, entries []discovery.Entry) (out []reporter.Report, crash *Crash) {
+	defer catch("check", &crash)
+	ctx = context.WithValue(ctx, config.CommandKey, cmd)
+	ctx = context.WithValue(ctx, promapi.AllPrometheusServers, gen.Servers())
+	for _, s := range cfg.Check {
+		settings, _ := s.Decode()
+		ctx = context.WithValue(ctx, checks.SettingsKey(s.Name), settings)
+	}
+	for _, entry := range entries {
+		switch {
+		case entry.PathError != nil && entry.State == discovery.Removed:
+			continue
+		case entry.Rule.Error.Err != nil && entry.State == discovery.Removed:
+			continue
+		}
+		for _, check := range cfg.GetChecksForEntry(ctx, gen, entry) {
+			for _, problem := range check.Check(ctx, entry, entries) {
+				out = append(out, reporter.Report{Path: entry.Path, ModifiedLines: entry.ModifiedLines, Rule: entry.Rule, Problem: problem, Owner: entry.Owner})
+			}
+		}
+	}
+	return out, nil
+}
